@@ -185,3 +185,8 @@ ASSUMPTIONS = [
     'rewrite rules R1 (enumerate), R2 (map iteration via .iter()), R7 (field visibility), R10 (tuple-pattern closure parameter named; closure given its own ensures) are semantics-preserving',
     'type_rel (the type of a value) is transcribed from the implementation\'s intent, not from the standard',
 ]
+
+BOUNDED = {'C16': [{'name': 'type-relations-differential', 'script': 'typediff.py', 'args': [],
+                    'functions': ['FeelType::is_equivalent', 'FeelType::is_conformant'],
+                    'bound': 'every ordered pair of 79 types up to nesting depth 2 (6 simple types; lists, ranges, functions of arity 0..2 and contexts with 0..2 entries over 4 simple types; lists, functions and contexts over 8 of '
+                             'those): 6 241 pairs against equivalence and conformance of DMN 1.3 section 10.3.2.9 written out in Python (bounded duplicate of the Verus contracts; decides the relations when a rewritten body leaves the extractor\'s reach)'}]}
